@@ -589,6 +589,10 @@ def run(ctx, scale=1):
                 '(virtual/balanced-virtual postings, states, codes, notes, tags, posting dates, zero amounts, 3 '
                 'commodities) x 12 limit settings; non-trivial = the run selects a non-empty proper subset or errors; '
                 'distinct by argv / by journal+limit text')
+    res.rule += ('; (e) every comparison operator (== != < <= > >=) on date and amount with the constant ON a posting\'s '
+                 'date / amount, through the query term `expr CMP` (printed and re-read by ledger), its negation, an and/or '
+                 'nesting, and through --limit, judged against the date and exact amount the register displays; '
+                 'non-trivial = every run')
     res.rule += ('; (d) the posting-flag identifiers virtual real cleared pending uncleared actual through --limit ID, '
                  '--limit not ID, the query `expr ID` and and/or/not combinations, judged against how the register '
                  'displays each posting ((A)/[A]/bare account, the state marks written in the journal, accounts only an '
@@ -600,6 +604,7 @@ def run(ctx, scale=1):
     part_b(ctx, rng, res, scale)
     part_c(ctx, rng, res, scale)
     part_d(ctx, rng, res, scale)
+    part_e(ctx, rng, res, scale)
     return res
 
 
@@ -1235,6 +1240,136 @@ def oracle_d(res, m, got):
                  [len(x) for x in parts], len(rall))
 
 
+# ---------------------------------------------------------------- (e) comparison operators at their boundary, query path
+OPS = ['==', '!=', '<', '<=', '>', '>=']
+
+
+def cmp_py(op, a, b):
+    return {'==': a == b, '!=': a != b, '<': a < b, '<=': a <= b, '>': a > b, '>=': a >= b}[op]
+
+
+def row_amount(row):
+    m = re.fullmatch(r'A:([0-9a-f]*):(-?\d+)/(\d+):\d+:[01]', row.split('|')[3])
+    return (bytes.fromhex(m.group(1)).decode(), F(int(m.group(2)), int(m.group(3)))) if m else None
+
+
+def expect_cmp(leaf, row):
+    """does the displayed row satisfy the comparison?  None = the property text does not say
+    (amounts of different commodities)"""
+    _, op, l, r = leaf
+    const, ident, flip = (r, l, False) if l[0] == 'id' else (l, r, True)
+    if ident[1] == 'date':
+        a, b = row.split('|')[4], const[2].isoformat()
+    else:
+        sym, q = row_amount(row)
+        if const[3] and const[3] != sym:
+            return None
+        if not const[3] and op in ('==', '!='):
+            # amount_t::operator== also compares the commodity: a bare number equals no commoditized amount
+            return (op == '!=') if sym else cmp_py(op, q, const[2])
+        a, b = q, const[2]
+    return cmp_py(op, b, a) if flip else cmp_py(op, a, b)
+
+
+def expect_tree(t, row):
+    if t[0] == 'cmp':
+        return expect_cmp(t, row)
+    if t[0] == 'not':
+        v = expect_tree(t[1], row)
+        return None if v is None else not v
+    a, b = expect_tree(t[1], row), expect_tree(t[2], row)
+    if t[0] == 'and':
+        return False if (a is False or b is False) else (None if None in (a, b) else True)
+    return True if (a is True or b is True) else (None if None in (a, b) else False)
+
+
+def part_e(ctx, rng, res, scale):
+    ne = ctx.scale(50, 350) * scale
+    jobs, metas = [], []
+    for j in range(ne):
+        text, posts = gen_journal(rng, rng.choice([3, 4, 5]))
+        path = ctx.path('e%d.dat' % j)
+        open(path, 'w').write(text)
+        p1, p2 = rng.choice(posts), rng.choice(posts)
+        d = p1['date'] or p1['xdate']
+        comm = [c for c in COMMS if c[0] == p2['comm']][0]
+        consts = [('const', 'date', d)]
+        if comm[2] == 2 or p2['q'].denominator == 1:
+            consts.append(('const', 'amt', p2['q'], comm[0], amt_text(p2['q'], comm)) if p2['q'] >= 0 and rng.random() < 0.7 else
+                          ('const', 'amt', abs(p2['q']), '', str(abs(p2['q'])) if abs(p2['q']).denominator == 1 else '%.2f' % float(abs(p2['q']))))
+        runs = [('all', [], None)]
+        leaves = []
+        for c in consts:
+            ident = ('id', 'date' if c[1] == 'date' else 'amount')
+            for op in OPS:
+                leaf = ('cmp', op, ident, c) if rng.random() < 0.8 else ('cmp', op, c, ident)
+                leaves.append(leaf)
+                txt = render_expr(leaf)
+                tag = '%s%s' % (ident[1], op)
+                runs.append(('q:' + tag, [('qry', ['expr', txt], [(txt, leaf)])], leaf))
+                runs.append(('l:' + tag, [('e', txt, leaf)], leaf))
+        for i in range(3):
+            a, b = rng.choice(leaves), rng.choice(leaves)
+            ta, tb = render_expr(a), render_expr(b)
+            k = rng.randrange(3)
+            if k == 0:
+                runs.append(('qnot%d' % i, [('qry', [rng.choice(['not', '!']), 'expr', ta], [(ta, a)])], ('not', a)))
+            elif k == 1:
+                runs.append(('qand%d' % i, [('qry', ['expr', ta, rng.choice(['and', '&']), 'expr', tb], [(ta, a), (tb, b)])], ('and', a, b)))
+            else:
+                t = (rng.choice(['and', 'or']), a, ('not', b))
+                txt = render_expr(t, rng)
+                runs.append(('qin%d' % i, [('qry', ['expr', txt], [(txt, t)])], t))
+        metas.append(dict(j=j, path=path, text=text, posts=posts, runs=runs))
+        for name, limits, _ in runs:
+            jobs.append((path, limits))
+    outs = pmap(lambda jb: run_reg_d(jb[0], jb[1]), jobs)
+    lines = [lib.sx(['f', 'e%d' % m['j'], ['posts'] + [post_sx(p) for p in m['posts']],
+                     ['runs'] + [['run', 'r%d' % i] + [limit_sx(l) for l in limits] for i, (name, limits, _) in enumerate(m['runs'])]])
+             for m in metas]
+    model = lib.run_model('C07', lines)
+    k = 0
+    for m in metas:
+        rall = outs[k][1]
+        for name, limits, t in m['runs']:
+            st, rows = outs[k]
+            mo = model[k].split(' ', 2)
+            k += 1
+            res.evaluations += 1
+            res.traces += 1
+            kind = name.split(':')[0].rstrip('0123456789')
+            res.count('e:%s:%s' % (kind, st))
+            res.nontrivial.add('e:%d:%s' % (m['j'], name))
+            case = dict(journal=m['text'], flagrun=name, limits=[(l[0], l[1]) for l in limits])
+            mstat = 'ERR' if mo[2].startswith(('ERR', 'QERR')) else 'OK'
+            mrows = [r for r in mo[2][3:].split(';') if r] if mstat == 'OK' else []
+            irows = [canon_row(r) for r in rows]
+            if st != mstat or (st == 'OK' and irows != mrows):
+                res.disagreements.append(dict(name='C07/comparison-rows', case=case, impl=[st] + irows, model=[mstat] + mrows))
+            if t is None:
+                continue
+            what = ' '.join(str(x) for l in limits for x in ([l[1]] if l[0] == 'e' else l[1]))
+            opname = name.split(':')[1] if ':' in name else 'combination'
+            via = {'q': 'query', 'l': 'limit'}.get(kind, 'query-combination')
+            if st != 'OK':
+                res.violations.append(dict(key='compare:%s:%s:fails' % (via, opname), desc='%s failed' % what,
+                                           case=dict(journal=m['text'], flagruns=[(name, [(l[0], l[1]) for l in limits])]), observed=st, required='a report'))
+                continue
+            sel = set(rows)
+            for r in rall:
+                want = expect_tree(t, r)
+                if want is not None and (r in sel) != want:
+                    f = r.split('|')
+                    res.violations.append(dict(
+                        key='compare:%s:%s' % (via, opname),
+                        desc='%s %s the posting on line %s (date %s, amount %s/%s of %s), which the comparison %s'
+                             % (what, 'reports' if r in sel else 'omits', f[0], f[4], row_amount(r)[1].numerator, row_amount(r)[1].denominator,
+                                row_amount(r)[0] or 'no commodity', 'excludes' if r in sel else 'includes'),
+                        case=dict(journal=m['text'], flagruns=[('all', []), (name, [(l[0], l[1]) for l in limits])], line=f[0], want=want),
+                        observed=[x.split('|')[0] for x in rows], required='line %s %s' % (f[0], 'in' if want else 'out')))
+                    break
+
+
 def search(ctx, broken):
     import random
     for s in range(3):
@@ -1271,6 +1406,11 @@ def replay(ctx, obj):
                 sel = {('is', 'virtual'): isv, ('q', 'virtual'): isv, ('not', 'real'): isv}.get((kind, ident), lambda r: not isv(r))
                 if st != 'OK' or rows != [r for r in rall if sel(r)]:
                     bad = True
+        if 'line' in case:
+            for name, limits in case['flagruns']:
+                if name != 'all':
+                    st, rows = run_reg_d(path, [tuple(l) for l in limits])
+                    bad = bad or st != 'OK' or ((case['line'] in [r.split('|')[0] for r in rows]) != case['want'])
         if bad or not case.get('flagruns'):
             print('replay: the rows differ from what the display requires')
             res.violations.append(dict(key=obj.get('key', 'flag'), desc=obj.get('desc', '')))
